@@ -84,6 +84,14 @@ def gen_history(rng, ncommits=None):
                 touched.add(p)
                 changes.append([rng.randint(0, 30), rng.randint(0, 30), p, p, "0", p, ""])
             elif r < 0.8:
+                if rng.random() < 0.15:
+                    # the listed history begins after the file was created (range-limited log, merge-introduced
+                    # file): its first mention is its deletion
+                    p = rng.choice(DIRS) + "gone%d_" % rng.randint(0, 50) + rng.choice(NAMES)
+                    if p in live or p in touched or p in dead: continue
+                    touched.add(p); dead.append(p)
+                    changes.append([0, rng.randint(1, 40), p, p, "1", p, "delete"])
+                    continue
                 p = rng.choice(live)
                 if p in touched: continue
                 touched.add(p); live.remove(p); dead.append(p)
